@@ -230,13 +230,14 @@ class PositiveWaveFunction(WaveFunctionBase):
 
     @staticmethod
     def autoload(location, gpu=True):
+        start = location.tell() if hasattr(location, "seek") else None
         state_dict = torch.load(location)
         wvfn = PositiveWaveFunction(
             num_visible=len(state_dict["rbm_am"]["visible_bias"]),
             num_hidden=len(state_dict["rbm_am"]["hidden_bias"]),
             gpu=gpu,
         )
-        if hasattr(location, "seek"):
-            location.seek(0)  # an open file was read above; read it again from the start
+        if start is not None:
+            location.seek(start)  # an open file was read above; read it again from where that read began
         wvfn.load(location)
         return wvfn
